@@ -30,6 +30,16 @@ static inline Json gen_env(Rng & r) {
 	Json e = Json::object();
 	// anywhere in [1980-01-01, 2107-12-31): the range both localtime and the DOS date field define
 	e["clock"] = r.chance(1, 6) ? r.range(315532800, 946684800) : r.chance(1, 6) ? r.range(2000000000, 4354819199LL) : r.range(946684800, 2000000000);
+	if (r.chance(1, 4)) {
+		// calendar boundaries: the DOS epoch, leap days, year ends, the 32-bit time_t limit, the last DOS date - each +- up to a day
+		static const int64_t special[] = {
+			315532800LL /*1980-01-01*/, 315619199LL, 951782400LL /*2000-02-29*/, 1078012800LL /*2004-02-29*/, 1709164800LL /*2024-02-29*/, 1835395200LL /*2028-02-29*/,
+			946684799LL /*1999-12-31 23:59:59*/, 946684800LL, 1735689599LL /*2024-12-31*/, 2147483647LL /*2038-01-19*/, 2147483648LL, 4102444800LL /*2100-01-01*/,
+			4107542400LL /*2100-03-01: 2100 is not a leap year*/, 4354819199LL /*2107-12-31 23:59:59*/, 1582934400LL /*2020-02-29*/, 1709251199LL /*2024-02-29 23:59:59*/ };
+		e["clock"] = special[r.below(sizeof(special) / sizeof(special[0]))] + (r.chance(1, 2) ? 0 : r.range(-86400, 86400));
+		if ((int64_t)e.geti("clock") < 315532800LL) e["clock"] = 315532800LL;
+		if ((int64_t)e.geti("clock") > 4354819199LL) e["clock"] = 4354819199LL;
+	}
 	if (r.chance(1, 5)) e["clock_step"] = r.range(-100000, 100000);
 	e["rand"] = (int64_t)(r.next() >> 2);
 	return e;
